@@ -1,0 +1,14 @@
+//go:build verif
+
+package configuration
+
+import (
+	"github.com/onosproject/onos-config/pkg/southbound/gnmi"
+	"github.com/onosproject/onos-config/pkg/store/topo"
+	configurationstore "github.com/onosproject/onos-config/pkg/store/v3/configuration"
+)
+
+// NewReconcilerForVerif exposes the reconciler to the verification harness
+func NewReconcilerForVerif(topo topo.Store, conns gnmi.ConnManager, configurations configurationstore.Store) *Reconciler {
+	return &Reconciler{conns: conns, topo: topo, configurations: configurations}
+}
